@@ -4,22 +4,34 @@
   * `chunkSizes` / `arraySplit` : `numpy.array_split(args_list, ncpu)`.
   * A transition system with one agent per process.  The master has pid 0; the child process with
     pid `j+1` (`processes[j]` in the code) is called *child `j`* here.
-      - child: `running t` (about to start local task `t`; the hook point `'task'`), then
-        `rqueue.put` → `queued` (hook point `'queued'`), then the `None` log sentinel → `finished`,
-        then process exit → `exited 0`.  A fault (`Fault`) turns the corresponding step into
-        `exited code`.
-      - master: own chunk (`own t`), then the gather loop as coded, then `join`, then the
-        concatenation by pid (`collect`), `done r` | `error` (= an exception leaves `parallelize`).
-    `masterStep` is the gather loop of the current (repaired) code, `Orig.masterStep` the loop of the
-    pinned commit (kept for the `_counterexample` theorems and for replaying the hang witnesses).
+      - child: `running t` (about to start local task `t`; hook point `'task'`), then `rqueue.put` →
+        `queued` (hook point `'queued'`), then the `None` log sentinel → `finished` (hook point
+        `'done'`), then process exit → `exited code`.  A fault (`Fault`) turns the corresponding step
+        into `exited code`; `exitQueuedPartial` additionally leaves a truncated message in the pipe
+        (`poison`), `exitAfterSentinel` is a death after everything was delivered.
+      - master: own chunk (`own t`; `mfault`: the function raises there → `stop_processes(); raise`),
+        then the gather loop as coded, then `join`, the exit codes, the concatenation by pid
+        (`collect`); `done r` | `error` (= an exception leaves `parallelize`) | `recv` (blocked for ever
+        in a receive).  `raiseStop` = `stop_processes()` + `raise`: every running child is terminated.
+      - The two waiting loops are `[exit-code snapshot; get; (sleep)]*`.  One master step is the `get`,
+        which uses the snapshot taken *before* it (state field `ended`), followed by the snapshot for
+        the next `get`: the order "exit codes first, queue second" is part of the model
+        (`Swapped.masterStep` has it the other way round and raises in fault-free runs).
+    `masterStep` is the gather loop of the current code, `Orig.masterStep` the loop of the pinned commit
+    (kept for the `_counterexample` theorems and for replaying the hang witnesses).
   * The scheduler is the only nondeterminism: `run cfg σ k` is the state after `k` steps of the
-    schedule `σ : Nat → Agent`.  A step of an agent that cannot move (sleeping poll, blocking `get`,
-    exited child) leaves the state unchanged.
+    schedule `σ : Nat → Agent`.  A step of an agent that cannot move (sleeping poll that learns nothing,
+    timed-out `get`, `join`, exited child) leaves the state unchanged.
+  * `getNcpu` / `assembleTrials`: `get_ncpu` and the result assembly of `Analysis.do_trials`.
 
   `pid_result_list_map` (a dict keyed by pid) is represented by the slot `got` of each child — a dict
   keyed by pid *is* one optional slot per pid, overwrite included.  The shared result queue `rq` and
-  the per-child log queues `lq` hold what is visible in the pipe (the feeder threads are not
-  modelled; a hard exit directly after `rqueue.put` may lose the result: `exitQueued code false`).
+  the per-child log queues `lq` hold what is visible in the pipe.  The feeder threads are not agents of
+  their own: a put is visible at once.  What a feeder thread adds to the behaviour is (a) a hard exit
+  may lose a queued item or cut it in two (`exitQueued _ false`, `exitQueuedPartial`), (b) a normal exit
+  waits for the flush (so "exited ⇒ delivered", used by the snapshot argument), (c) result and sentinel
+  travel through different pipes and may become visible in either order — the master reads the result
+  first and the sentinel only afterwards, so the earlier visibility of the sentinel changes no step.
 -/
 
 namespace Par
